@@ -128,10 +128,16 @@ var encodedWordOnly = []string{"=?UTF-8?q?Quarterly_report?=", "=?UTF-8?q?one?= 
 	"=?UTF-8?q?one?=\r\n\r\n=?UTF-8?q?body?=", "=?UTF-8?q?one?=\r\n=?UTF-8?q?X-Injected:?= =?UTF-8?q?1?=", "=?utf-8?b?w6Q=?=\n=?utf-8?b?w7Y=?=",
 	"=?ISO-8859-1?q?caf=E9?=\r=?us-ascii?q?x?=", "=?UTF-8?q?a?=\t=?UTF-8?q?b?=", "=?UTF-8?q?a?=\r\n\t=?UTF-8?q?b?="}
 
-func genHeaderValue(r *Rng) string {
+// genSetterValue: a value for a setter that encodes (SetGenHeader and friends)
+func genSetterValue(r *Rng) string {
 	if r.Chance(4) {
 		return encodedWordOnly[r.Intn(len(encodedWordOnly))]
 	}
+	return genHeaderValue(r)
+}
+
+// genHeaderValue: a stored (already encoded, CR/LF-free) value as writeHeader receives it
+func genHeaderValue(r *Rng) string {
 	var sb strings.Builder
 	n := r.Intn(12)
 	if r.Chance(10) {
